@@ -242,7 +242,7 @@ func (u *Unit) useLemma(f *Frame, st *State, env *SpecEnv, x ast.Expr) {
 			vars[p.Name()] = v
 		}
 	}
-	le := &SpecEnv{u: u, st: st, old: st, vars: vars, oldVars: vars, pkg: lcon.Pkg, fr: &Frame{u: u, fn: u.fn, pure: true}}
+	le := &SpecEnv{u: u, st: st, old: st, vars: vars, oldVars: vars, pkg: lcon.Pkg, fr: &Frame{u: u, fn: u.fn, pure: true}, callSite: true}
 	for _, r := range lcon.Requires {
 		u.oblige(f, st, "use-pre", id.Name+":"+r.label(), le.boolExpr(r.Expr), token.NoPos)
 	}
